@@ -477,6 +477,7 @@ def check(ctx):
                       anchors=[f'{INCOMP}:get_confirmed_incompatibility_edges',
                                f'{INCOMP}:get_mod_nodes_remove_incompatibilities',
                                f'{INCOMP}:get_incompatibility_deriving_nodes'])
+    edges.check_exhaustive_scans(ctx)
     ctx.floor('A9e', 4, 'handlers of IncompatibilityError')
     ctx.floor('A4', 15, 'walks')
     # design-vector position vs selection-choice position (forced choices have no variable): the decode keeps the
